@@ -3,12 +3,13 @@ import Driver.OpsUnit
 import Driver.OpsPki
 import Driver.OpsHash
 import Driver.OpsHist
+import Driver.OpsKeys
 /-! Line-protocol driver: reads one JSON object per line (`op`, `id`, `in`, `out`) from stdin,
     runs the Lean model and the specification on it, and prints one verdict per line. -/
 open Lean Driver
 
 def table : List (String × OpFn) :=
-  [("merge", opMerge), ("validate", opValidate), ("rdn", opRdn), ("raw", opRaw), ("validity", opValidity), ("pki", opPki), ("hash", opHash), ("hist", opHist), ("open", opPki)]
+  [("merge", opMerge), ("validate", opValidate), ("rdn", opRdn), ("raw", opRaw), ("validity", opValidity), ("pki", opPki), ("hash", opHash), ("hist", opHist), ("open", opPki), ("pkcs8", opPkcs8), ("pemfile", opPemFile)]
 
 def handleLine (view : String) (line : String) : String :=
   match Json.parse line with
